@@ -45,12 +45,23 @@ def whole_stack_finds(rng, n):
             ds.PatientName = 'Match^%d' % i
             ds.StudyDescription = 'x' * rng.choice([10, 300, 700])
             matches.append((ds, statuses.C_FIND_PENDING if i % 2 == 0 else statuses.C_FIND_PENDING_WARNING))
-        srv = R.server_ae(ae_mod.AE, 'SRV', 0, max_pdu_length=16384)
+        import pydicom.uid as _u
+        tss = [_u.ImplicitVRLittleEndian, _u.ExplicitVRLittleEndian, _u.ExplicitVRBigEndian]
+        ts_a, ts_b = tss[k % 3], tss[(k + 1) % 3]
+        srv = R.server_ae(ae_mod.AE, 'SRV', 0, supported_ts=[ts_a, ts_b], max_pdu_length=16384)
         srv.add_scp(sc.qr_find_scp)
-        srv.on_receive_find = lambda context, ds, m=matches: iter(m)
+        seen_q = {}
+
+        def on_find(context, ds, m=matches, seen_q=seen_q):
+            seen_q['id'] = str(getattr(ds, 'PatientID', None))
+            return iter(m)
+        srv.on_receive_find = on_find
         srv.timeout = 20
-        cl = ae_mod.ClientAE('CL', max_pdu_length=rng.choice([256, 512])).add_scu(sc.qr_find_scu)
+        cl = ae_mod.ClientAE('CL', supported_ts=[ts_a], max_pdu_length=rng.choice([256, 512])).add_scu(sc.qr_find_scu)
         cl.timeout = 8
+        # another requester, with another transfer syntax, is accepted on the same context id while this query runs
+        other = ae_mod.ClientAE('OTHER', supported_ts=[ts_b], max_pdu_length=16384).add_scu(sc.qr_find_scu)
+        other.timeout = 8
         addr = ('find.example', 104)
         mid = rng.choice(K.MIDS[1:])
         sop = sc.PATIENT_ROOT_FIND_SOP_CLASS
@@ -61,10 +72,13 @@ def whole_stack_finds(rng, n):
             net.register(addr, srv)
             try:
                 with cl.request_association({'aet': 'SRV', 'address': addr[0], 'port': addr[1]}) as assoc:
-                    q = pydicom.Dataset()
-                    q.PatientID = '*'
-                    for ds, st in assoc.get_scu(sop)(q, mid):
-                        tr.append({'ev': 'Got', 'd': S.token(K.enc(ds)) if ds is not None else 0, 's': int(st), 'wire': wire})
+                    with other.request_association({'aet': 'SRV', 'address': addr[0], 'port': addr[1]}):
+                        q = pydicom.Dataset()
+                        q.PatientID = '*'
+                        for ds, st in assoc.get_scu(sop)(q, mid):
+                            tr.append({'ev': 'Got', 'd': S.token(K.enc(ds)) if ds is not None else 0, 's': int(st), 'wire': wire})
+                if seen_q.get('id') != '*':
+                    extra['query'] = 'the query reaching the handler is not the one sent (PatientID %r)' % (seen_q.get('id'),)
             except Exception as exc:      # noqa
                 extra['raised'] = 'whole-stack C-FIND with batched delivery raised %s: %s after %d of %d responses' % (
                     type(exc).__name__, exc, len(tr) - 1, len(wire))
